@@ -809,7 +809,8 @@ PROPS = {
         assumptions=["head.length <= 1024 for the invariance theorem: longer heads may be rejected depending on segmentation"],
     ),
     "C09": dict(
-        suites=["c09"],
+        retry_on_failure=True,
+        suites=["c09", "c09live"],
         judge=judge_c09,
         level="proof",
         exhaustive=True,
@@ -820,12 +821,21 @@ PROPS = {
              "extract_client_random, the SOCKS5 dialogue; random fragment soups as rules and credentials files through the real loader; "
              "all under catch_unwind, all answers also compared with the Lean models"
              " Plus every declared UDP record length 0..90 with enough bytes behind it, and the connection filter with every rule "
-             "prefix length 0..4 x mask length 0..6 against client randoms of 0, 1, 2, 3 and 32 bytes",
+             "prefix length 0..4 x mask length 0..6 against client randoms of 0, 1, 2, 3 and 32 bytes."
+             " Live part (suite c09live, no model): about 8500 (thorough 34000) datagrams to the real QUIC listener - every short and "
+             "sampled longer prefix of a real client's Initial packets, single- and multi-byte mutations of their header region, "
+             "hand-made long headers (7 versions incl. unsupported ones, all 4 types, connection-id lengths up to 255, token and length "
+             "varints beyond the datagram), short headers with unknown ids, random datagrams - and 180 (720) TCP connections with "
+             "garbage, truncated, mutated or over-long first records, half of them abandoned; after every batch a fresh HTTP/3 session "
+             "and a fresh TLS connection must still be served (a panic in a listener task would end Core::listen)",
         explanation="theorems udp_stream_no_panic, udp_step_safe, icmp_request_decoder_safe, ip_header_skipping_safe, icmp_packets_safe, "
                     "client_hello_prebuffer_bounded, h1_head_bounded_and_progress, socks_udp_datagram_safe, socks_truncated_reply_is_error, "
                     "rules_malformed_safe (TT/Props/C09.lean, built on the C04/C06/C08/C11/C12/C15 theorems)",
         trusted=["third-party parsers run as black boxes under catch_unwind only: httparse, tls-parser, toml_edit, ipnet, hex, base64",
                  "the origin-response parser of http_forwarded_stream.rs is covered by C17, not here",
+                 "QUIC packet parsing and the QUIC / TLS state machines are quiche's and BoringSSL's: the live suite only shows that the "
+                 "endpoint's own handling around them (header dispatch, retry tokens, version negotiation, connection table) survives what "
+                 "it was sent",
                  "arithmetic overflow: models use unbounded naturals except where the code's width matters (u8 header length, u32 checksum sum: proved not to wrap)"],
         assumptions=[],
     ),
